@@ -155,7 +155,11 @@ def case_npyplan(ctx, inp):
                 ctx.fail("block of from_npy_stack(to_npy_stack(x)) is not the block of x", observed=[key, blk.tolist()],
                          expected=want.tolist())
                 return
-        got = np.asarray(b.compute(scheduler="sync"))
+        try:
+            got = np.asarray(b.compute(scheduler="sync"))
+        except Exception as e:
+            ctx.fail("from_npy_stack(to_npy_stack(x)).compute() raised " + type(e).__name__, observed=repr(e)[:300])
+            return
         if got.shape != a.shape or got.dtype != a.dtype or (got != a).any():
             ctx.fail("to_npy_stack -> from_npy_stack does not reproduce the array", observed=got.tolist(), expected=a.tolist())
         # ---- an info whose axis is not an axis of the chunks
